@@ -142,6 +142,18 @@ impl Rx {
       }
     }
   }
+  fn recv_woken_drop(&self) -> Res {
+    match self {
+      Rx::S(_) => panic!("op rw needs an async handle"),
+      Rx::A(r) => {
+        let mut fut = std::pin::pin!(r.recv());
+        match poll_wait_woken(fut.as_mut()) {
+          Some(r) => tval(r),
+          None => Res::Cancelled,
+        }
+      }
+    }
+  }
   fn recv_repoll(&self) -> Res {
     match self {
       Rx::S(_) => panic!("op rp needs an async handle"),
@@ -254,6 +266,7 @@ pub fn run_once(sc: &Scenario, policy: Policy, record: bool) -> OneRun {
             "rt" => stamp(&mut out, || rx.recv_timeout()),
             "rc" => stamp(&mut out, || rx.recv_cancel()),
             "rp" => stamp(&mut out, || rx.recv_repoll()),
+            "rw" => stamp(&mut out, || rx.recv_woken_drop()),
             "D" => loop {
               stamp(&mut out, || rx.recv());
               results.lock().unwrap()[ti] = out.clone();
